@@ -51,6 +51,8 @@ type SvcModel struct {
 	Events []SvcEvent
 	// GetCount counts delivered get answers per key
 	GetAnswers map[string]int
+	// Deleted lists the resource names for which a delete event was emitted.
+	Deleted map[string]bool
 }
 
 func newSvc(w *World) *SvcModel {
@@ -60,6 +62,7 @@ func newSvc(w *World) *SvcModel {
 		Norm:       func(_, q string) string { return q },
 		Access:     func(_, _, _, _ string) string { return `{"get":true,"call":"*"}` },
 		GetAnswers: map[string]int{},
+		Deleted:    map[string]bool{},
 	}
 }
 
@@ -261,6 +264,8 @@ func (s *SvcModel) StreamNext(key string) {
 func (s *SvcModel) Delete(key string) {
 	r := s.Res[key]
 	r.Gone = true
+	name, _ := splitKey(key)
+	s.Deleted[name] = true
 	s.emit(key, "delete", `null`)
 }
 
